@@ -757,7 +757,10 @@ fn gen_table_fault(rng: &mut Rng, info: &FontInfo, targets: &[String]) -> Option
             }
         }
         2 => {
-            let fields = fields::locate(&target, &data, rng);
+            let fields = match (target.as_str(), loca_offsets(info)) {
+                ("glyf", Some(offs)) => fields::locate_glyf(&data, &offs, rng),
+                _ => fields::locate(&target, &data, rng),
+            };
             if fields.is_empty() {
                 let off = off_in(rng) & !1;
                 let old = read_be(&data, off, 2);
@@ -844,6 +847,24 @@ fn gen_table_fault(rng: &mut Rng, info: &FontInfo, targets: &[String]) -> Option
                 .to_string(),
         },
     })
+}
+
+/// Pristine loca offsets of the font (harness' own byte arithmetic).
+fn loca_offsets(info: &FontInfo) -> Option<Vec<usize>> {
+    let get = |t: &str| info.disk.tables.get(&crate::trace::tag_from_str(t)).cloned();
+    let (head, loca) = (get("head")?, get("loca")?);
+    let long = be16(&head, 50)? == 1;
+    let mut v = Vec::new();
+    if long {
+        for c in loca.chunks_exact(4).take(70000) {
+            v.push(u32::from_be_bytes([c[0], c[1], c[2], c[3]]) as usize);
+        }
+    } else {
+        for c in loca.chunks_exact(2).take(70000) {
+            v.push(usize::from(u16::from_be_bytes([c[0], c[1]])) * 2);
+        }
+    }
+    Some(v)
 }
 
 fn gen_file_fault(rng: &mut Rng, info: &FontInfo, rewrap: bool) -> Option<Fault> {
